@@ -64,7 +64,8 @@ PAYROLL,Payroll,Income,Salary,income
 VIEWS_CORRUPT = '[Food]\nfilter: category == "Food"\n\n[Costly\nfilter: total > 1000\n'
 CURRENCY = {'absent': '${amount}', 'usd': '${amount}', 'eur': '\u20ac{amount}', 'zl': '{amount} zl'}
 WARNING_TEXT = {'invalid-rule-mode': 'Invalid rule_mode', 'merchants-file-not-found': 'Merchants file not found',
-                'views-file-not-found': 'Views file not found', 'views-error': 'Error loading views'}
+                'views-file-not-found': 'Views file not found', 'views-error': 'Error loading views',
+                'removed-settings': 'have been removed'}
 VIEWS_TEXT = '[Food]\nfilter: category == "Food"\n\n[Costly]\nfilter: total > 1000\n'
 RULE_NAMES = {1: 'Alfa', 2: 'Alfa Big', 3: 'Refunds', 4: 'Payroll', 5: 'Matched', 6: 'Wallet', 7: 'Split', 8: 'Split'}
 TABLES = {'f1': [('d1', 'A', 'p1250'), ('bad30', 'A', 'p1250'), ('d2', 'Bp', 'm3'), ('d1', 'A', 'thou'), ('d2', 'pay', 'big'),
@@ -108,6 +109,9 @@ def materialise_budget(root, b, rnd):
     if b['supp']:
         srcs.append('  - name: orders\n    file: data/orders.csv\n    format: "{date:%m/%d/%Y},{item},{amount}"\n    columns:\n      description: "{item}"\n    supplemental: true')
         files['data/orders.csv'] = 'Date,Item,Amount\n01/04/2025,Widget,12.50\n01/09/2025,Gadget,"1,234.56"\n'
+        if rnd.random() < 0.5:
+            # an export in a legacy 8-bit encoding: one byte that is not UTF-8 in an item name does not make the source unusable
+            files['data/orders.csv'] = b'Date,Item,Amount\n01/04/2025,Caf\xe9 Widget,12.50\n01/09/2025,Gadget \x96 large,"1,234.56"\n'
     settings = ('year: 2024\n' if b.get('year') == 'y2024' else '') + 'data_sources:\n' + '\n'.join(srcs) + '\n'
     if b.get('out') == 'custom':
         settings += 'output_dir: reports\nhtml_filename: summary.html\n'
@@ -129,6 +133,8 @@ def materialise_budget(root, b, rnd):
             files['config/views.rules'] = VIEWS_TEXT
         elif b['vf'] == 'corrupt':
             files['config/views.rules'] = VIEWS_CORRUPT
+    if b.get('removed'):
+        settings += 'home_state: WA\ntravel_labels:\n  CA: California\n'
     if b.get('cur', 'absent') != 'absent':
         settings += 'currency_format: "%s"\n' % CURRENCY[b['cur']]
     files['config/settings.yaml'] = settings
@@ -237,6 +243,22 @@ def run_budget(b, rep, seed, want_json=False):
                     {CURRENCY[cfg['currency']].format(amount='{:,}'.format((cents + 50) // 100))}
                 if line is None or line.split(None, 1)[1].strip().lstrip('+-').strip() not in ok_texts:
                     diffs.append(('summary-currency', 'text summary line %r, expected %s %s' % (line, label, sorted(ok_texts))))
+        if want_json and cfg and cfg['rules'] == 'csv' and rep.get('migrating'):
+            # the run that migrates the legacy CSV classifies with the new merchants.rules under the configured rule mode
+            mg = cli.run_tally(['up', '--migrate', '--format', 'json', '-v', '-q'], cwd=d)
+            mjs = cli.parse_json_out(mg['out'])
+            if mg['rc'] != 0 or mjs is None:
+                diffs.append(('migrating-run-fails', 'rc=%s %s' % (mg['rc'], mg['err'][-200:])))
+            else:
+                want_m = {}
+                for t in rep['migrating']:
+                    if t['rule']:
+                        w = want_m.setdefault(RULE_NAMES[t['rule']], [t['shown']['cat'], t['shown']['sub'], 0])
+                        w[2] += 1
+                got_m = {m['name']: [m['category'], m['subcategory'], m['count']] for m in mjs['merchants'] if m['category'] != 'Unknown'}
+                if got_m != want_m:
+                    diffs.append(('migrating-run-classification', '`tally up --migrate` reports %s, the migrated rules under rule mode %s give %s' % (
+                        got_m, cfg['mode'], want_m)))
         if want_json:
             j = cli.run_tally(['up', '--format', 'json', '-v', '-q'], cwd=d)
             js = cli.parse_json_out(j['out'])
@@ -299,6 +321,8 @@ def config_worker(states):
                 y += 'views_file: config/views.rules\n'
             if s['vfFile'] != 'missing':
                 files['config/views.rules'] = VIEWS_TEXT if s['vfFile'] == 'ok' else VIEWS_CORRUPT
+            if s['removed']:
+                y = 'home_state: WA\n' + y
             if s['cur'] != 'absent':
                 y += 'currency_format: "%s"\n' % CURRENCY[s['cur']]
             files['config/settings.yaml'] = y
@@ -442,10 +466,10 @@ def run(ck):
                 seen_settings.add((s['layout'], s['sign'], s['dec'], s['header'], s['delim'], s['status']))
             for clause, detail in diffs:
                 ck.violation(signature(b, clause), {'budget': b, 'settings_yaml': raw.get('settings'), 'detail': detail, 'raw': {k: v for k, v in raw.items() if k != 'settings'}},
-                             '`tally up` on budget %s: %s' % (json.dumps({k: b.get(k) for k in ('rules', 'mode', 'supp', 'views', 'xform', 'cur', 'modeBogus', 'mfMissing', 'vf', 'year', 'out', 'split')}), detail))
+                             '`tally up` on budget %s: %s' % (json.dumps({k: b.get(k) for k in ('rules', 'mode', 'supp', 'views', 'xform', 'cur', 'modeBogus', 'mfMissing', 'vf', 'year', 'out', 'split', 'removed')}), detail))
     ck.extra['distinct_source_settings_exercised'] = len(seen_settings)
     ck.sample({'budget': walks[0][1] and plain(walks[0][1][-1]['b'])})
-    ck.extra['rule'] = ('all 2304 settings records of Config.tla against the real load_config and `tally diag` (findings compared with Config!Diag); TLC -simulate walks over MC_Pipeline (each step changes one setting of one source - layout, sign mode, decimal separator, '
+    ck.extra['rule'] = ('all 4608 settings records of Config.tla against the real load_config and `tally diag` (findings compared with Config!Diag); TLC -simulate walks over MC_Pipeline (each step changes one setting of one source - layout, sign mode, decimal separator, '
                         'header, delimiter, present/missing - or the rules kind, rule mode, supplemental source, views, description transform, currency format, a misspelt rule_mode, a dangling merchants_file, a missing / unparsable views file, or adds a source); every '
                         'budget on the walk is materialised and run through the real `tally up`; the decoded report is compared per transaction '
                         'and per flow with Pipeline!Report and consecutive budgets are compared with each other; plus (exhaustively, from the TLC state dump) every budget of two sources with the same format string that is one or two setting changes away from the identical pair, negation in both spellings. non-trivial = two sources or rules')
